@@ -187,6 +187,18 @@ def handle (op : String) (j : Json) : Option (Except String Json) :=
       let out := treeOrder es
       pure (jobj [("order", jarr (out.map fun e => jstr e.name)), ("closed", jbool (groupClosed es)),
                   ("preorder", jbool (Preorder [] out)), ("fixed", jbool (treeOrder out == out))])
+  | "c05.savefiles" => some do
+      let base ← getStr j "base"
+      let pair (x : Json) : Except String (Str × String) := do
+        match ← asArr x with
+        | [a, b] => pure (← asStr a, String.ofList (← asStr b))
+        | _ => .error "expected [name, content]"
+      let old ← (← getArr j "old").mapM pair
+      let sheets ← (← getArr j "sheets").mapM pair
+      let files := saveFrames base old sheets
+      pure (jobj [("files", jarr (files.map fun f => jarr [jstr f.1, Json.str f.2])),
+                  ("keysAreTheTenSheets", jbool (sheets.map (·.1) == sheetNames)),
+                  ("load", jarr ((loadFrames base files).map fun f => jarr [jstr f.1, jopt Json.str f.2]))])
   | "c05.escape" => some do
       let s ← getStr j "s"
       pure (jobj [("esc", jstr (escapeNl s)), ("back", jstr (unescapeNl (escapeNl s)))])
